@@ -10,11 +10,18 @@ out = sys.argv[1]
 os.makedirs(out, exist_ok=True)
 repl = {}
 pat = re.compile(r'^(\s*)([A-Za-z_][\w\.\(\)\*]*)\.(RUnlock|Unlock)\(\)\s*$')
+lockpat = re.compile(r'^(\s*)([A-Za-z_][\w\.\(\)\*]*)\.(RLock|Lock)\(\)\s*$')
 for rel in ["go/appencryption/key_cache.go", "go/appencryption/session_cache.go", "go/appencryption/envelope.go", "go/appencryption/session.go"]:
     src = os.path.join("/repo", rel)
     lines = open(src).read().split("\n")
     res, n = [], 0
     for i, line in enumerate(lines, 1):
+        lm = lockpat.match(line)
+        if lm and "defer" not in line:
+            # a goroutine about to take a lock: a natural preemption point (stress workloads yield here; the
+            # schedule enumerator does not park here because an outer lock may be held)
+            res.append(f'{lm.group(1)}verifHook("auto.before_lock:{os.path.basename(rel)}:{i}", nil)')
+            n += 1
         res.append(line)
         m = pat.match(line)
         if m and "defer" not in line:
